@@ -52,6 +52,22 @@ class EV:
     def __neg__(self):
         return EV(-self.v, self.k)
 
+    def __abs__(self):
+        return EV(abs(self.v), self.k)  # exact operation
+
+    # comparisons are decided on the exact values (forking like any symbolic condition)
+    def __lt__(self, o):
+        return self.v < EV.lift(o).v
+
+    def __le__(self, o):
+        return self.v <= EV.lift(o).v
+
+    def __gt__(self, o):
+        return self.v > EV.lift(o).v
+
+    def __ge__(self, o):
+        return self.v >= EV.lift(o).v
+
     def __mul__(self, o):
         try:
             o = EV.lift(o)
